@@ -441,6 +441,56 @@ def cost_on(sim, which, T=None):
     return r
 
 
+def case_cost_pick(which, signal, explicit, start, period, voltages, rates, aware=None):
+    """analysis cost function on a simulator whose signals carry `signal` (or no tariff) while `explicit` (or nothing) is
+    passed as the tariff argument; the tariff that must apply is the explicit one, else the signal's"""
+    sim, cerr = make_sim(signal, start, period, len(rates[0]) if rates else 0, voltages, aware, rates)
+    T = None
+    if sim is not None and explicit is not None:
+        T, cerr2 = load_impl(explicit)
+        if T is None:
+            sim, cerr = None, "ctor:" + cerr2
+    r = ("err", cerr) if sim is None else cost_on(sim, which, T)
+    ncol = len(rates[0]) if rates else 0
+    cols = [[rates[s_][k] for s_ in range(len(voltages))] for k in range(ncol)]
+    colq = coq_list([qlist(c) for c in cols])
+    sg = "None" if signal is None else "(Some %s)" % src_coq(signal)
+    ex = "None" if explicit is None else "(Some %s)" % src_coq(explicit)
+    if which == "energy":
+        coq = "(CEnergyP %s %s %s %s %s %s %s)" % (sg, ex, z(start), q(period), qlist(voltages), colq, res_coq(r, q))
+    else:
+        coq = "(CDemandChargeP %s %s %s %s %s %s)" % (sg, ex, z(start), qlist(voltages), colq, res_coq(r, q))
+    applies = explicit if explicit is not None else signal
+    return dict(input=dict(op="analysis." + ("energy_cost" if which == "energy" else "demand_charge"),
+                           src=None if applies is None else list(applies), signal=None if signal is None else list(signal),
+                           explicit_tariff=None if explicit is None else list(explicit), start=start, period=jnum(period),
+                           voltages=voltages, rates=rates, aware=aware, pick=True),
+                impl=jres(r), coq=coq, kind="precedence/analysis." + which + ("/err" if r[0] == "err" else ""),
+                sig=["pick", which, signal and list(signal), explicit and list(explicit), start, jnum(period), rates],
+                nontrivial=ncol > 0, raw=r)
+
+
+def precedence_cases(rng, names, k):
+    """signal tariff x explicit tariff: all ordered pairs of bundled files (cycled through), explicit on a simulator
+    without tariff signal, no argument, neither"""
+    combos = [(a, b) for a in names for b in names] + [(None, b) for b in names] + [(a, None) for a in names] + [(None, None)]
+    rng.shuffle(combos)
+    out = []
+    for a, b in combos[:k]:
+        signal = None if a is None else ("b", a)
+        explicit = None if b is None else ("b", b)
+        docs = bundled_docs(b if b is not None else (a if a is not None else names[0]))
+        period = rng.choice(SIM_PERIODS + FRAC_PERIODS[:4])
+        start = boundary_instant(rng, docs) if rng.random() < 0.6 else rand_instant(rng)
+        ns = rng.randint(1, 3)
+        ncol = rng.choice([1, 3, 12, 30])
+        voltages = [rng.choice([208.0, 240.0, 277.0]) for _ in range(ns)]
+        rates = [[rng.choice([0.0, 6.0, 16.0, 32.0, round(rng.uniform(0, 32), 3)]) for _ in range(ncol)] for _ in range(ns)]
+        out.append(case_cost_pick(rng.choice(["energy", "energy", "demand"]), signal, explicit, start, period, voltages, rates,
+                                  rng.choice(AWARE)))
+    return out
+
+
 def case_cost(which, src, start, period, voltages, rates, aware=None, explicit=False, ids=None, int_rates=False,
               reload=False, sim=None, kind=None):
     """rates: station-major matrix (list of rows).  which = 'energy' | 'demand'.
@@ -935,6 +985,7 @@ def gen_cases_main(rng, n, tier, names):
     for _ in range(10 if tier == "quick" else 80):
         cases.extend(cost_sequence_cases(rng, names))
     cases.extend(second_interpreter_cases(rng, names))
+    cases.extend(precedence_cases(rng, names, 36 if tier == "quick" else 200))
     while len(cases) + len(fixed) < n:
         cases.append(bundled_random_case(rng, names))
     # spread the long sweeps over the shards (they dominate the evaluation time)
@@ -1207,6 +1258,11 @@ def replay(w):
         c = case_prices(src, inp["start"], inp["period"], inp["iteration"], inp["length"], inp["st"], aware)
     elif op == "Interface.get_demand_charge":
         c = case_iface_demand(src, inp["start"], inp["period"], inp["iteration"], inp["st"], aware)
+    elif op.startswith("analysis.") and inp.get("pick"):
+        c = case_cost_pick("energy" if op.endswith("energy_cost") else "demand",
+                           None if inp["signal"] is None else tuple(inp["signal"]),
+                           None if inp["explicit_tariff"] is None else tuple(inp["explicit_tariff"]),
+                           inp["start"], inp["period"], inp["voltages"], inp["rates"], aware)
     elif op.startswith("analysis."):
         c = case_cost("energy" if op.endswith("energy_cost") else "demand", src, inp["start"], inp["period"],
                       inp["voltages"], inp["rates"], aware, inp.get("explicit", False))
